@@ -847,6 +847,7 @@ func (s *scen) versionWindow() {
 func run(b *harness.B) {
 	if b.Batch == 0 {
 		directedEdges(b)
+		directedOwners(b)
 	}
 	nNets := b.Pick(10, 24)
 	for i := 0; i < nNets; i++ {
@@ -909,6 +910,6 @@ func main() {
 		Run:         run,
 		MinEvals:    1500,
 		MinDistinct: 80,
-		Require:     []string{"maturity_delay_edge_cases", "far_apart_median_cases", "boundaries_observed_on_both_sides", "boundary_points_as_predicted", "after_policy_median_equal_to_lock_time_visited", "in_block_spends_of_immature_outputs_rejected_at_the_fix_height"},
+		Require:     []string{"maturity_delay_edge_cases", "far_apart_median_cases", "boundaries_observed_on_both_sides", "boundary_points_as_predicted", "after_policy_median_equal_to_lock_time_visited", "in_block_spends_of_immature_outputs_rejected_at_the_fix_height", "dev_address_override_timelock_cases", "genesis_payout_maturity_cases"},
 	})
 }
